@@ -239,6 +239,9 @@ func TestC16PushPull(t *testing.T) {
 		if timedOut {
 			c.failf("the server never answered the request mutated by %v (pending database commands: %v)", muts, w.env.Mongo.Busy())
 		}
+		if resp == nil && rpcErr == nil {
+			c.failf("the request mutated by %v was answered with neither a response nor an error", muts)
+		}
 		w.env.WaitBackground(3 * time.Second)
 		refused := refusedPushPull(resp, rpcErr)
 		if refused {
@@ -285,6 +288,19 @@ func TestC16PushPull(t *testing.T) {
 				if err := exchangeProblem(cl, ex); err != nil {
 					c.failf("after the REFUSED request mutated by %v the next valid sync fails: %v", muts, err)
 				}
+			}
+		}
+		// ... also by the REST endpoint (it rebuilds the document from what the request left in the store)
+		if d.key.Kind == sim.Document && d.key.created {
+			presp, perr, pto := w.env.PatchDocument(&model.PatchMessage{Collection: w.col, Key: d.key.Name, Json: `{"after":"mutated request"}`}, l1Deadline)
+			if pto {
+				c.failf("after the request mutated by %v (refused=%v) a REST patch of the same key was never answered", muts, refused)
+			}
+			if presp == nil && perr == nil {
+				c.failf("after the request mutated by %v (refused=%v) a REST patch of the same key was answered with neither a response nor an error", muts, refused)
+			}
+			if refused && perr != nil {
+				c.failf("after the REFUSED request mutated by %v a valid REST patch of the same key fails: %v", muts, perr)
 			}
 		}
 		reached := rpcErr == nil && resp != nil && len(resp.PushPullPacks) > 0
@@ -354,7 +370,7 @@ func TestC16Others(t *testing.T) {
 		w.env.WaitBackground(3 * time.Second)
 		before := w.env.Mongo.DumpCanonical()
 		kind := rapid.SampledFrom([]string{"client", "patch", "collection"}).Draw(rt, "reqkind")
-		var refused, timedOut bool
+		var refused, timedOut, noAnswer bool
 		var desc string
 		switch kind {
 		case "client":
@@ -373,8 +389,9 @@ func TestC16Others(t *testing.T) {
 				m.ClientAlias = strings.Repeat("x", 5000)
 			}
 			desc = "ClientMessage/" + mut
-			_, e, to := w.env.ProcessClient(m, l1Deadline)
+			resp, e, to := w.env.ProcessClient(m, l1Deadline)
 			refused, timedOut = e != nil, to
+			noAnswer = !to && e == nil && resp == nil
 		case "patch":
 			mut := rapid.SampledFrom([]string{"collection-unknown", "non-document-key", "invalid-json", "array-json", "null-member", "empty-key", "string-json"}).Draw(rt, "pmut")
 			m := &model.PatchMessage{Collection: w.col, Key: w.keys[1].Name, Json: `{"a":1}`}
@@ -398,8 +415,9 @@ func TestC16Others(t *testing.T) {
 				m.Json = `"x"`
 			}
 			desc = "PatchMessage/" + mut
-			_, e, to := w.env.PatchDocument(m, l1Deadline)
+			resp, e, to := w.env.PatchDocument(m, l1Deadline)
 			refused, timedOut = e != nil, to
+			noAnswer = !to && e == nil && resp == nil
 		default:
 			name := rapid.SampledFrom([]string{"", "-_-Operations", "-_-Datatypes", "-_-Clients", w.col, "new-one", "a.b", "$x"}).Draw(rt, "colname")
 			reset := rapid.Bool().Draw(rt, "reset")
@@ -425,6 +443,9 @@ func TestC16Others(t *testing.T) {
 		canon.WriteString(desc)
 		if timedOut {
 			c.failf("%s was never answered", desc)
+		}
+		if noAnswer {
+			c.failf("%s was answered with neither a response nor an error (a gRPC caller gets an opaque marshalling failure instead of the refusal)", desc)
 		}
 		w.env.WaitBackground(3 * time.Second)
 		if refused {
